@@ -51,7 +51,7 @@ def strategy(tier):
         {
             "prune": st.booleans(),
             "sparse": st.booleans(),
-            "ops": histories(tier, batches=True, aborts=False, looks=1, reroot=True),
+            "ops": histories(tier, batches=True, aborts=True, looks=1, reroot=True),
             "meta": st.one_of(st.none(), meta),
         }
     )
